@@ -113,6 +113,19 @@ def check_clone(spec, entry, index=0, dest_blocks=0):
             if w:
                 return {"entry": entry, "index": idx, "dest_blocks": dest_blocks, "source": str(a), "inserted": str(c), "why": w, "key": key}
             roots = [holder, c, dholder]
+        elif entry == "mapper-reuse":
+            # the caller supplies ONE value mapper / block mapper and clones the same op twice with it (the mappers then already hold every inside value
+            # and block of the first copy): the second copy must again be an independent isomorphic copy whose inside references point into ITSELF
+            vm, bm = {}, {}
+            c1 = a.clone(vm, bm)
+            c2 = a.clone(vm, bm)
+            for which, c in (("first", c1), ("second", c2)):
+                if not iso(a, c):
+                    return {"entry": entry, "source": str(a), "clone": str(c), "why": f"the {which} clone made with a shared caller-supplied mapper is not isomorphic to the source", "key": key}
+                w = refs_ok(a, c)
+                if w:
+                    return {"entry": entry, "source": str(a), "clone": str(c), "why": f"{which} clone with a shared caller-supplied mapper: " + w, "key": key}
+            roots = [holder, c1, c2]
         else:  # apply_to_clone
             class Clobber(ModulePass):
                 name = "c02-clobber"
@@ -208,7 +221,7 @@ def explore(tier, seed):
                 rec(check_self_reference(n_results, self_positions, nested))
     for _ in range(n):
         spec = gen_spec(rnd)
-        for entry in ("op.clone", "op.clone_without_regions", "region.clone", "apply_to_clone"):
+        for entry in ("op.clone", "op.clone_without_regions", "region.clone", "apply_to_clone", "mapper-reuse"):
             cases += 1
             rec(check_clone(spec, entry))
         for dest_blocks in (0, 1, 2):
@@ -217,5 +230,5 @@ def explore(tier, seed):
                 rec(check_clone(spec, "region.clone_into", index, dest_blocks))
     return {"cases": cases, "failures": fails, "exhaustive": False,
             "bound": f"16 directed root ops that use their own results (graph-region feedback, with/without a nested user) cloned directly; {n} seeded programs (<=2 blocks x <=3 ops, forward/outer references, successors, one nested region level) x entry points "
-                     "{Operation.clone, clone_without_regions, Region.clone, Region.clone_into (destination with 0/1/2 blocks, every index), "
+                     "{Operation.clone, clone_without_regions, Region.clone, two clones through one caller-supplied mapper, Region.clone_into (destination with 0/1/2 blocks, every index), "
                      "ModulePass.apply_to_clone}; isomorphism oracle, reference remapping, source/destination untouched, edit independence"}
